@@ -123,8 +123,8 @@ def for_loop(eng, stmt, st):
     out = []
     label = loop_label(eng, stmt)
     spec = eng.contract.loops.get(label, {}) if eng.contract else {}
-    for itv, s in eng.ev(stmt.iter, st):
-        view = itv if isinstance(itv, SeqView) else eng.seq_of(s, itv)
+    for itv, s0 in eng.ev(stmt.iter, st):
+      for view, s in eng.iter_sources(s0, itv):
         n = smt.simp(view.n)
         s.assume(view.n >= 0)
         if z3.is_int_value(n) and n.as_long() <= spec.get("unroll", 8):
